@@ -1,5 +1,5 @@
 (* C27 — proofs about the model of lib/shape fit / inner-box formulas. *)
-From Coq Require Import ZArith QArith Qround Qabs Bool Lqa.
+From Coq Require Import ZArith QArith Qround Qabs Bool Lqa Lia.
 Require Import V.C27.Model.
 Open Scope Q_scope.
 
@@ -391,25 +391,28 @@ Proof.
       rewrite <- Zle_Qle. apply Qfloor_resp_le in L. rewrite Qfloor_Z in L. exact L.
 Qed.
 
+Lemma ceil_nonneg_of_gt_m1 x : - (1) < x -> (0 <= Qceiling x)%Z.
+Proof.
+  intros H. pose proof (Qle_ceiling x) as C.
+  assert (L : inject_Z (-1) < inject_Z (Qceiling x)) by (change (inject_Z (-1)) with (- (1)); lra).
+  rewrite <- Zlt_Qlt in L. lia.
+Qed.
+
 Theorem oval_fit_partial :
   forall c s cr sr w h px py, 0 <= w -> 0 <= h -> 0 <= px -> 0 <= py ->
-    H_unit_b c s = true ->
+    H_pad_b c s w h px py = true ->
     let WH := fit_oval c s w h px py in
     H_radius_b cr sr (fst WH) (snd WH) = true ->
     let b := inner_oval cr sr (fst WH) (snd WH) in
     Contains ((w + px * c) * (1 - rho) - 2) ((h + py * s) * (1 - rho) - 2) b /\ Inside (fst WH) (snd WH) b.
 Proof.
   intros c s cr sr w h px py Hw Hh Hpx Hpy HU. cbv zeta. unfold fit_oval.
-  unfold H_unit_b in HU. rewrite !andb_true_iff, !Qle_bool_iff in HU. destruct HU as [[[C0 C1] S0] S1].
-  assert (PC : 0 <= px * c) by (apply Qmult_le_0_compat; assumption).
-  assert (PS : 0 <= py * s) by (apply Qmult_le_0_compat; assumption).
+  unfold H_pad_b in HU. rewrite !andb_true_iff, !Qle_bool_iff in HU. destruct HU as [PC PS].
   set (pc := px * c) in *. set (ps := py * s) in *.
   pose proof (ceil_ge (sqrt2f * (w + pc))) as A1. pose proof (ceil_ge (sqrt2f * (h + ps))) as B1.
   unfold ceilQ in *.
-  assert (A0 : (0 <= Qceiling (sqrt2f * (w + pc)))%Z).
-  { rewrite Zle_Qle. change (inject_Z 0) with 0. unfold sqrt2f in *. lra. }
-  assert (B0 : (0 <= Qceiling (sqrt2f * (h + ps)))%Z).
-  { rewrite Zle_Qle. change (inject_Z 0) with 0. unfold sqrt2f in *. lra. }
+  assert (A0 : (0 <= Qceiling (sqrt2f * (w + pc)))%Z) by (apply ceil_nonneg_of_gt_m1; unfold sqrt2f; lra).
+  assert (B0 : (0 <= Qceiling (sqrt2f * (h + ps)))%Z) by (apply ceil_nonneg_of_gt_m1; unfold sqrt2f; lra).
   destruct (limit_ar_grows_integral _ _ A0 B0) as [GW GH].
   rewrite Zle_Qle in A0, B0. change (inject_Z 0) with 0 in A0, B0.
   set (W := fst (limit_ar _ _ ovalAR)) in *. set (H := snd (limit_ar _ _ ovalAR)) in *.
